@@ -212,7 +212,7 @@ PROPS = {
         level_text="A valid small fit problem is damaged by 1..3 invalidations drawn from the property's catalogue (weights / coordinate / order / knot-vector / smoothing / penalty container lengths off by one or empty, data index beyond its range, range beyond the coordinate vector, unsorted knots, too few knots, huge orders, penalty order above the spline order, monotonic dimension out of range) or left valid (20 %); the call runs in a forked child under ASan/UBSan. Listed inconsistencies must throw (C wrapper: non-zero), leave the table empty and reusable (a following valid fit must equal a fresh object's result bit for bit); a penalty order above the order must be rejected or act as a vanishing penalty (compared with the zero-smoothing fit); valid arguments must not be rejected.",
         level_note="The C wrapper is exercised only with invalidations it can express (it takes lengths from the data). Empty data sets are not generated (not in the catalogue).",
         technique="property-based testing (rapidcheck, fork-isolated under ASan/UBSan) with a must-reject / must-accept oracle",
-        units=[U("c13_fitargs", "c13_fitargs.cpp", quick=2500, thorough=400000, names=["fit_arguments"])],
+        units=[U("c13_fitargs", "c13_fitargs.cpp", quick=6000, thorough=600000, names=["fit_arguments"])],
         rule="Non-trivial: exactly one invalidation (so a missing check cannot be masked by another one firing first); distinct = hash(invalidation kind, data, knots, monodim).",
         essential={"fit_arguments": {"valid_arguments": 0.1, "inv:range_beyond_coords": 0.03, "inv:too_few_knots": 0.03, "inv:penalty_above_order": 0.03, "inv:penalty_above_order_shared_later_dim": 0.004, "inv:index_beyond_range": 0.03,
                                      "inv:knots_unsorted": 0.02, "inv:huge_order": 0.02, "inv:monodim_out_of_range": 0.03, "inv:weights_length": 0.03, "via:C": 0.03}},
